@@ -334,7 +334,7 @@ fn gen_case(seed: u64, idx: usize, for_model: bool) -> Value {
     let mut deep = false;
     match fam {
         "deep-chain" => {
-            let l = *rng.pick(if for_model { &[20usize, 60, 99, 101, 120][..] } else { &[20usize, 99, 100, 101, 150, 300, 400][..] });
+            let l = *rng.pick(if for_model { &[12usize, 30, 45][..] } else { &[20usize, 99, 100, 101, 150, 300, 400][..] });
             defs.push_str("---@class K0\n");
             for i in 1..l { defs.push_str(&format!("---@class K{}: K{}\n", i, i - 1)); edges.push((format!("K{}", i), format!("K{}", i - 1))); }
             for i in 0..l { names.push(format!("K{}", i)); }
@@ -408,6 +408,12 @@ fn gen_case(seed: u64, idx: usize, for_model: bool) -> Value {
             acyclic = (0..nc).all(|i| !reach[i][i]);
             let nt = rng.range(10, 16);
             for _ in 0..nt { types.push(gen_ty(&mut rng, 3, &env)); }
+            if rng.chance(1, 3) {
+                defs.push_str("---@alias AN any\n---@alias AV never\n");
+                names.push("AN".into()); names.push("AV".into());
+                types.push("AN".into()); types.push("never".into()); types.push("AV".into());
+            }
+            if rng.chance(1, 3) { types.push("never[]".into()); types.push("(never[]) | nil".into()); }
             for c in env.classes.iter().take(4) { types.push(c.clone()); }
             for a in env.aliases.iter() { types.push(a.clone()); }
             for p in PRIMS.iter().take(3) { types.push(p.to_string()); }
@@ -424,12 +430,20 @@ fn gen_case(seed: u64, idx: usize, for_model: bool) -> Value {
         let l = rng.below(6);
         unions.push((0..l).map(|_| rng.below(n)).collect());
     }
+    // an alias followed by never (and the reverse): the batch scan drops never, the fold does not
+    for a in ["T:AN", "T:AV"] {
+        if let (Some(i), Some(j)) = (specs.iter().position(|x| x == a), specs.iter().position(|x| x == "T:never")) {
+            unions.push(vec![i, j]);
+            unions.push(vec![j, i]);
+            unions.push(vec![i, j, rng.below(n)]);
+        }
+    }
     let mut subs: Vec<[String; 2]> = vec![];
     let cls: Vec<String> = names.iter().filter(|x| x.starts_with('C') || x.starts_with('K') || *x == "A" || *x == "B").cloned().collect();
     if cls.len() <= 8 {
         for a in &cls { for b in &cls { subs.push([a.clone(), b.clone()]); } for p in ["string", "integer", "table", "number"] { subs.push([a.clone(), p.to_string()]); } }
     } else {
-        for _ in 0..30 { subs.push([rng.pick(&cls).clone(), rng.pick(&cls).clone()]); }
+        for _ in 0..12 { subs.push([rng.pick(&cls).clone(), rng.pick(&cls).clone()]); }
         subs.push([cls[cls.len() - 1].clone(), cls[0].clone()]);
         subs.push([cls[0].clone(), cls[cls.len() - 1].clone()]);
     }
@@ -468,8 +482,53 @@ fn nesting(t: &LuaType) -> usize {
     }
 }
 
+/// ids of the named types mentioned by a type (through every constructor of the grammar)
+fn mentioned(t: &LuaType, out: &mut Vec<LuaTypeDeclId>) {
+    match t {
+        LuaType::Ref(id) => { if !out.contains(id) { out.push(id.clone()); } }
+        LuaType::Array(a) => mentioned(a.get_base(), out),
+        LuaType::Tuple(tp) => tp.get_types().iter().for_each(|m| mentioned(m, out)),
+        LuaType::Union(u) => u.into_vec().iter().for_each(|m| mentioned(m, out)),
+        LuaType::DocFunction(f) => { f.get_params().iter().filter_map(|p| p.1.as_ref()).for_each(|m| mentioned(m, out)); mentioned(f.get_ret(), out); }
+        _ => {}
+    }
+}
+
+/// all aliases reachable from `t` through alias origins
+fn alias_closure(db: &DbIndex, t: &LuaType) -> Vec<LuaTypeDeclId> {
+    let mut seen: Vec<LuaTypeDeclId> = vec![];
+    let mut todo: Vec<LuaTypeDeclId> = vec![];
+    mentioned(t, &mut todo);
+    while let Some(id) = todo.pop() {
+        if seen.contains(&id) { continue; }
+        seen.push(id.clone());
+        if let Some(d) = db.get_type_index().get_type_decl(&id) {
+            if d.is_alias() {
+                if let Some(o) = d.get_alias_ref() { mentioned(o, &mut todo); }
+            }
+        }
+    }
+    seen
+}
+
+/// how many distinct aliases that are defined in terms of themselves the type mentions (transitively)
+fn recursive_aliases(db: &DbIndex, t: &LuaType) -> usize {
+    let mut n = 0;
+    for id in alias_closure(db, t) {
+        if let Some(d) = db.get_type_index().get_type_decl(&id) {
+            if d.is_alias() {
+                if let Some(o) = d.get_alias_ref() {
+                    if alias_closure(db, o).contains(&id) { n += 1; }
+                }
+            }
+        }
+    }
+    n
+}
+
+/// length of the longest alias chain below the type (only meaningful without recursive aliases)
 fn alias_depth(db: &DbIndex, t: &LuaType, fuel: usize) -> usize {
-    if fuel == 0 { return 1000; }
+    if fuel == 0 { return 0; }
     match t {
         LuaType::Ref(id) => match db.get_type_index().get_type_decl(id) {
             Some(d) if d.is_alias() => match d.get_alias_ref() { Some(o) => 1 + alias_depth(db, o, fuel - 1), None => 0 },
@@ -482,14 +541,31 @@ fn alias_depth(db: &DbIndex, t: &LuaType, fuel: usize) -> usize {
     }
 }
 
-struct Found {
-    out: Vec<Value>,
+/// class of a type with respect to the recursion guard: "deep" (nesting / alias chain beyond what MAX_TYPE_CHECK_LEVEL
+/// can cover), "several-recursive-aliases" (two or more self-referential aliases: their cross checks only end at the
+/// guard), "recursive-alias" (exactly one), or "shallow"
+fn depth_class(db: &DbIndex, t: &LuaType) -> &'static str {
+    let max_level = 100usize;
+    let rec = recursive_aliases(db, t);
+    if rec >= 2 {
+        "several-recursive-aliases"
+    } else if rec == 1 {
+        "recursive-alias"
+    } else if 2 * nesting(t) + alias_depth(db, t, 400) + 2 > max_level {
+        "nesting-exceeds-guard"
+    } else {
+        "shallow"
+    }
 }
 
-fn classify(res: &str, deep: bool) -> String {
+struct Found {
+    out: Vec<Value>,
+    counts: std::collections::BTreeMap<String, usize>,
+}
+
+fn classify(res: &str, class: &str) -> String {
     match res {
-        "recursion" if deep => "recursion:nesting-exceeds-guard".to_string(),
-        "recursion" => "recursion:shallow".to_string(),
+        "recursion" => format!("recursion:{}", class),
         other => other.to_string(),
     }
 }
@@ -502,16 +578,17 @@ fn search_case(case: &Value, found: &mut Found, laws: &mut [usize; 6]) {
     let tys: Vec<LuaType> = specs.iter().map(|s| w.ty(s)).collect();
     let any = LuaType::Any;
     let unknown = LuaType::Unknown;
-    let max_level = 100usize;
     let mut report = |sig: String, what: String, extra: Value| {
-        if found.out.len() < 40 {
+        let same = found.out.iter().filter(|v| v["signature"].as_str() == Some(sig.as_str())).count();
+        *found.counts.entry(sig.clone()).or_default() += 1;
+        if same < 3 {
             found.out.push(json!({"signature": sig, "what": what, "defs": defs, "cfg": case["cfg"], "family": case["family"], "detail": extra}));
         }
     };
     let in_grammar = |t: &LuaType| { let mut ps = Ptrs::default(); !tyjson(t, &mut ps).to_string().contains("\"other\"") };
     for (i, t) in tys.iter().enumerate() {
         if !in_grammar(t) { continue; }
-        let deep = 2 * nesting(t) + 2 > max_level || alias_depth(w.db(), t, 400) + 2 * nesting(t) + 2 > max_level;
+        let deep = depth_class(w.db(), t);
         // law 1: T is accepted where T is expected
         laws[0] += 1;
         let r = w.check(t, t);
@@ -591,7 +668,7 @@ fn search_case(case: &Value, found: &mut Found, laws: &mut [usize; 6]) {
     for (i, s) in specs.iter().enumerate().take(8) {
         let Some(t) = s.strip_prefix("T:") else { continue };
         if !in_grammar(&tys[i]) || t == "never" { continue; }
-        let deep = 2 * nesting(&tys[i]) + 2 > max_level || alias_depth(w.db(), &tys[i], 400) + 2 * nesting(&tys[i]) + 2 > max_level;
+        let deep = depth_class(w.db(), &tys[i]);
         laws[5] += 1;
         let prog = format!("---@type {0}\nlocal x\nx = x\n---@param a {0}\n---@param b {0}\n---@return {0}\nlocal function f(a, b)\n  a = b\n  return a\nend\n---@type {0}\nlocal y\n---@type {0}\nlocal z = f(y, y)\nreturn z\n", t);
         let ds = w.mismatch_diags(&prog);
@@ -634,7 +711,7 @@ fn main() {
                 None => serde_json::from_str(&args.str("case-json", "{}")).expect("case json"),
             };
             println!("{}", observe(&case));
-            let mut found = Found { out: vec![] };
+            let mut found = Found { out: vec![], counts: Default::default() };
             let mut laws = [0usize; 6];
             search_case(&case, &mut found, &mut laws);
             for v in &found.out { println!("{}", v); }
@@ -645,7 +722,7 @@ fn main() {
             for i in 0..n { println!("{}", observe(&gen_case(seed, i, true))); }
         }
         "search" => {
-            let mut found = Found { out: vec![] };
+            let mut found = Found { out: vec![], counts: Default::default() };
             let mut laws = [0usize; 6];
             let mut fams: std::collections::BTreeMap<String, usize> = Default::default();
             let mut distinct = std::collections::HashSet::new();
@@ -660,12 +737,11 @@ fn main() {
                         distinct.insert((defs.to_string(), t));
                     }
                 }
-                if found.out.len() >= 40 { break; }
             }
             for v in &found.out { println!("{}", v); }
             println!("{}", json!({"summary": {"cases": cases, "evaluations": laws.iter().sum::<usize>(), "distinct_nontrivial": distinct.len(),
                 "laws": {"refl": laws[0], "union_member": laws[1], "ancestor": laws[2], "any_unknown_top": laws[3], "union_batch": laws[4], "diagnostics": laws[5]},
-                "families": fams}}));
+                "families": fams, "violations_by_signature": found.counts}}));
         }
         _ => {
             eprintln!("usage: c16 one|gen|corr|search|diag");
